@@ -436,6 +436,25 @@ CLAIMS["C20"] = (
     "'any byte string' is approximated by structured mutations of valid archives, not by coverage-guided fuzzing",
     "TLA+ generated mutation grid + outcome contract + TLC trace validation (+ sanitizers)")
 
+CLAIMS["C43"] = (
+    "model_checking",
+    "TLC enumerates ~2800 calls of the integer back-end wrappers (50 mp_* functions and the integer / rational class "
+    "operators) on small, limb-boundary, word-boundary and multi-word integers up to 10^40 and 2^127; every case is "
+    "replayed on three builds of the library (GMP through the C wrapper, GMP C++ classes, Boost.Multiprecision); TLC "
+    "validates each trace against the school arithmetic on limb sequences of module BigInt (self-tested against TLC's "
+    "native integers by MC_BigInt): sums, products, the three division conventions, gcd / lcm, Bezout identity, "
+    "modular inverse and power, integer roots by their contract, primality by definition / by a Lucas certificate "
+    "TLC verifies itself / by a factorisation, perfect powers, next prime, Fibonacci / Lucas / factorial / primorial "
+    "/ binomial, Legendre / Jacobi / Kronecker by Euler's criterion and multiplicativity, bit operations, hex text, "
+    "conversions, fractions in lowest terms; a second specification (Trace_C43X) then requires the three results of "
+    "every case to be identical; the number-theory and exact-arithmetic workloads of C32 and C05 (thorough: also "
+    "C21, C22, C23, C03) are replayed on every back end, validated by their own specifications and compared",
+    "6/C43", TRUSTED + "; FLINT and Piranha are not installed in the sandbox (two of the five INTEGER_CLASS values "
+    "cannot be built); whether and which factor the randomised Pollard methods find is validated per back end but not "
+    "compared; the rounding of integers above 2^53 to a double (GMP truncates, Boost rounds to nearest) is not an "
+    "exact computation and is not compared",
+    "TLA+ big-integer reference arithmetic + TLC trace validation per back end + TLC cross-back-end equality")
+
 CLAIMS["C44"] = (
     "model_checking",
     "TLC enumerates the expression pool of module ExprPool (numbers of every kind, 52 functions, undefined functions, "
